@@ -206,7 +206,7 @@ class Gen:
             opts += [lambda: self.macro(lambda: f"abs({sub()})"), lambda: self.macro(lambda: f"max({sub()}, {sub()})"),
                      lambda: self.macro(lambda: f"min({sub()}, {sub()})")]
         if self.p.on("int_truediv"):
-            opts.append(lambda: (self.feat("int_truediv"), f"({self.e_int(depth - 1)} / {self.choice(['1', '2', '4', '8', '-2', '5'])})")[1])
+            opts.append(lambda: (self.feat("int_truediv"), f"({self.e_int(depth - 1)} / {self.choice(['1', '2', '4', '8', '-2', '-4'])})")[1])
         if self.p.on("floordiv_mod_neg"):
             fd = lambda: self.choice(["2.0", "0.5", "-2.0", "4", "-1.5", "3"])
             opts += [lambda: (self.feat("float_floordiv"), f"({sub()} // {fd()})")[1], lambda: (self.feat("float_mod"), f"({sub()} % {fd()})")[1]]
@@ -707,7 +707,12 @@ class Gen:
         for i in range(nloc):
             t = self.choice(["int", "float", "str"])
             ln = lnames[i]
-            body.append(("s", f"{ln} = {self.expr(t, 2)}"))
+            if self.chance(0.3):
+                # first bound inside both arms of a branch: still a local of the helper, declared once with the arms' type
+                self.feat("helper_local_bound_in_branch")
+                body += [("b", f"if {self.e_bool(1)}:", [("s", f"{ln} = {self.expr(t, 1)}")]), ("b", "else:", [("s", f"{ln} = {self.expr(t, 1)}")])]
+            else:
+                body.append(("s", f"{ln} = {self.expr(t, 2)}"))
             self.vars[ln] = t
             locs.append(ln)
         self.readonly -= shadowed
@@ -825,6 +830,30 @@ def render(nodes, indent="", unit="    "):
             out.append(indent + n[1])
             out.extend(render(n[2], indent + unit, unit).split("\n")[:-1] if n[2] else [indent + unit + "pass"])
     return "\n".join(out) + "\n"
+
+
+def lines_to_nodes(lines, unit=4):
+    """Inverse of render() for scripts written with a fixed indent unit (scenario generators build line lists)."""
+    def build(i, depth):
+        out = []
+        while i < len(lines):
+            ln = lines[i]
+            if not ln.strip():
+                i += 1
+                continue
+            ind = (len(ln) - len(ln.lstrip(" "))) // unit
+            if ind < depth:
+                break
+            text = ln.strip()
+            if text.endswith(":") and i + 1 < len(lines) and (len(lines[i + 1]) - len(lines[i + 1].lstrip(" "))) // unit > ind:
+                body, i = build(i + 1, ind + 1)
+                out.append(("b", text, body))
+            else:
+                out.append(("s", text))
+                i += 1
+        return out, i
+
+    return build(0, 0)[0]
 
 
 def program_strategy(profile: Profile):
